@@ -88,7 +88,7 @@ pub fn c10() -> EditDriver {
     EditDriver {
         pid: "C10",
         rule_text: "tape -> G-edit base with mixed function / global / memory / table / tag imports in random order -> 1-6 ops, mostly FunctionBuilder::replace_import_in_module on a function import (body = marker + statements, same signature), mixed with other function ops -> the import is gone, every former use designates the built body, all other identities are preserved, output validates. Non-trivial: a replacement happened on a base with a non-function import or >=2 function imports, and function reference sites exist.",
-        alphabet: Alphabet { i2l: true, func_add: true, func_export: true, inject: true, ..Default::default() },
+        alphabet: Alphabet { i2l: true, func_add: true, func_export: true, inject: true, func_import_add: true, l2i: true, func_delete: true, ..Default::default() },
         max_ops: 6,
         quick: 60_000,
         thorough: 3_000_000,
@@ -108,5 +108,43 @@ pub fn c11() -> EditDriver {
         compare_names: false,
         only_names: false,
         nontrivial_rule: nt_c11,
+    }
+}
+
+fn nt_c29(ap: &Applied, w: &World, _i: &dm::Dec, _o: &dm::Dec) -> bool {
+    let n = &w.model.names;
+    (ap.shifted_f && (!n.funcs.is_empty() || !n.locals.is_empty())) || (ap.shifted_g && !n.globals.is_empty())
+}
+pub fn c29() -> EditDriver {
+    EditDriver {
+        pid: "C29",
+        rule_text: "tape -> G-edit base with a (mostly complete) name section -> history of index-shifting ops {add import func, delete func, local->import, add imported global, delete global, add local func (optionally named through the builder)} and naming calls {Module::set_fn_name, imports.set_name, imports.set_fn_name} -> encode -> the function, local and global names decoded from the output, keyed by the identity of the entity they are attached to, must equal the model's (names follow their entity; names of deleted entities disappear; names of converted functions are not constrained). Non-trivial: a function or global index shift happened and the shifted space has names.",
+        alphabet: Alphabet { func_add: true, func_import_add: true, func_delete: true, l2i: true, global_import_add: true, global_delete: true, global_add: true, naming: true, ..Default::default() },
+        max_ops: 6,
+        quick: 60_000,
+        thorough: 3_000_000,
+        compare_names: true,
+        only_names: true,
+        nontrivial_rule: nt_c29,
+    }
+}
+
+fn nt_c30(ap: &Applied, _w: &World, _i: &dm::Dec, _o: &dm::Dec) -> bool {
+    let mut kinds: Vec<&str> = ap.kinds.clone();
+    kinds.sort();
+    kinds.dedup();
+    kinds.len() >= 2 && ap.nonint_consts >= 1
+}
+pub fn c30() -> EditDriver {
+    EditDriver {
+        pid: "C30",
+        rule_text: "tape -> G-edit base -> 1-8 additions from {add_global with a constant of any value type (boundary integers, float bit patterns incl. NaN payloads, v128, ref.null, global.get, ref.func), mod_global_init_expr, add_data active/passive with random bytes and offsets, add_local_memory / add_import_memory with random limits, memory64 and shared flags, exports.add_export_func / add_export_mem on returned IDs} -> encode -> validate -> the entity reached through the returned ID (by identity) has exactly the requested type, limits, bytes and initialiser in the decoded output, and everything else is unchanged. Non-trivial: >=2 kinds of additions and >=1 non-integer constant. Distinct = hash(base, history).",
+        alphabet: Alphabet { global_add: true, global_modinit: true, data_add: true, mem_add: true, mem_import_add: true, func_export: true, mem_export: true, func_add: true, rich: true, ..Default::default() },
+        max_ops: 8,
+        quick: 60_000,
+        thorough: 3_000_000,
+        compare_names: false,
+        only_names: false,
+        nontrivial_rule: nt_c30,
     }
 }
